@@ -9,9 +9,12 @@ import (
 	"encoding/base64"
 	"errors"
 	"fmt"
+	"github.com/hashicorp/nodeenrollment/storage/file"
 	"net"
+	"path/filepath"
 	"sort"
 	"strings"
+	"syscall"
 	"testing"
 	"time"
 
@@ -40,20 +43,35 @@ type env struct {
 	rig  *vkit.Rig
 	node *vkit.Actor
 	used int
+	// pathIDs: peer-chosen record ids shaped like paths; on a file back end one of them
+	// leads to a named pipe inside the storage directory (reading it never ends)
+	pathIDs []string
 }
 
 func newEnv(t vkit.TB) *env {
-	w := vkit.NewWorld(vkit.WorldConfig{})
+	envCounter++
+	// every other listener keeps its records on the file back end
+	backend := vkit.Inmem
+	if envCounter%2 == 1 {
+		backend = vkit.File
+	}
+	w := vkit.NewWorld(vkit.WorldConfig{Backend: backend})
+	pathIDs := []string{"../roots/roots", "../../../../../../etc/hostname", "/dev/null", "a/b", ".."}
+	if fs, ok := w.Inner.(*file.Storage); ok {
+		if err := syscall.Mkfifo(filepath.Join(fs.BaseDir(), "pipe"), 0o600); err == nil {
+			pathIDs = append(pathIDs, "../pipe", "../pipe", "../nodeinfo/../pipe")
+		}
+	}
 	// a server that supports the wrapper-based registration flow
 	w.Opts = append(w.Opts, nodeenrollment.WithRegistrationWrapper(vkit.NewAead("registration")))
 	// half of the listeners have a base TLS configuration, so that handshakes without a
 	// usable library request complete as unauthenticated connections instead of failing
 	var base *tls.Config
-	if envCounter++; envCounter%2 == 0 {
+	if (envCounter/2)%2 == 0 {
 		r := vkit.MintRoot(time.Now().Add(-time.Hour), time.Now().Add(time.Hour))
 		base = &tls.Config{Certificates: []tls.Certificate{{Certificate: [][]byte{r.Cert.Raw}, PrivateKey: r.Priv}}}
 	}
-	e := &env{w: w, rig: vkit.NewRig(w, vkit.RigConfig{BaseTLS: base}), node: vkit.NewActor("honest")}
+	e := &env{w: w, rig: vkit.NewRig(w, vkit.RigConfig{BaseTLS: base}), node: vkit.NewActor("honest"), pathIDs: pathIDs}
 	if err := w.Enroll(e.node); err != nil {
 		t.Fatalf("enroll: %v", err)
 	}
@@ -319,7 +337,7 @@ func TestProp_HostileInputs(t *testing.T) {
 					info.Nonce = rnd(3000)
 				case "token-like":
 					// shaped like an activation-token nonce (with empty, short or plausible parts)
-				info.Nonce, _ = proto.Marshal(&types.ServerLedActivationTokenNonce{Nonce: rnd(rapid.SampledFrom([]int{0, 1, 32}).Draw(t, "tokenNonceLen")), HmacKeyBytes: rnd(rapid.SampledFrom([]int{0, 1, 32}).Draw(t, "tokenHmacLen"))})
+					info.Nonce, _ = proto.Marshal(&types.ServerLedActivationTokenNonce{Nonce: rnd(rapid.SampledFrom([]int{0, 1, 32}).Draw(t, "tokenNonceLen")), HmacKeyBytes: rnd(rapid.SampledFrom([]int{0, 1, 32}).Draw(t, "tokenHmacLen"))})
 				}
 				switch pick("window", "ok", "ok", "missing", "bad-nanos", "year-9999", "inverted") {
 				case "missing":
@@ -401,7 +419,9 @@ func TestProp_HostileInputs(t *testing.T) {
 				list = vkit.AuthProtos(req, nil)
 			}
 			sort.Strings(vars)
-			desc := func() any { return map[string]any{"request": map[bool]string{true: "authentication", false: "fetch"}[auth], "hostile_fields": vars} }
+			desc := func() any {
+				return map[string]any{"request": map[bool]string{true: "authentication", false: "fetch"}[auth], "hostile_fields": vars}
+			}
 			rec.Case("hostile-field-values/"+map[bool]string{true: "authentication", false: "fetch"}[auth], fmt.Sprint(auth, vars), len(vars) > 0, desc)
 			e.sendALPN(list)
 			e.judge(t, "hostile-field-values", desc, false)
@@ -456,7 +476,7 @@ func TestProp_HostileInputs(t *testing.T) {
 			// well-signed fetch request whose re-wrapped blob is attacker controlled
 			a := vkit.NewActor("attacker")
 			req := a.Request()
-			req.RewrappingKeyId = rapid.SampledFrom([]string{e.node.KeyID, "unknown", ""}).Draw(t, "keyId")
+			req.RewrappingKeyId = rapid.SampledFrom(append([]string{e.node.KeyID, "unknown", ""}, e.pathIDs...)).Draw(t, "keyId")
 			blobKind := rapid.SampledFrom([]string{"short-ciphertext", "random", "empty-envelope", "valid-envelope-wrong-key"}).Draw(t, "blob")
 			switch blobKind {
 			case "short-ciphertext":
